@@ -9,6 +9,12 @@ Tie:    generated problems (JSON specs) mixing vectors, slices (stepped, reverse
 Oracle: brute force in the harness — names collected by an own traversal of the object graph, sorted with an
         own natural-sort key, bounds from the declarations; must equal Problem.variables / get_bounds for every
         construction order and hash seed, one entry per name.
+        Edit histories: on one Problem the objective is replaced (fewer / other / the same / more / no variables), constraints
+        over known and new variables are added, in every order, with every reader (variables, n_variables, get_bounds,
+        repr, summary, solve, the private predicates) — or none — between the edits; at every read the list must be the
+        natural-sorted set of variables of the CURRENT objective and constraints as the harness records them, and
+        equal that of a fresh Problem; Solution.values has exactly those keys.  The editing methods themselves are tied
+        by StateTie (translation of minimize / maximize / subject_to / _invalidate_caches).
 Repaired earlier: F17 (reversed slice through the shortcut), F18 (x1 / x01 tie).
 """
 from __future__ import annotations
@@ -29,7 +35,7 @@ import core
 from ser import Ser, Ids, Unsupported, rat
 
 LEAN_MODULE = "Optyx.Props.C16"
-EXTRA_MODULES = ["Optyx.Props.PinsC16", "Optyx.Props.VarsTie", "Optyx.Props.VarsStepTie", "Optyx.Props.SpineTie", "Optyx.Props.VarsIterTie"]   # transcription anchors (harness/source_pins.py)
+EXTRA_MODULES = ["Optyx.Props.PinsC16", "Optyx.Props.StateTie", "Optyx.Props.VarsTie", "Optyx.Props.VarsStepTie", "Optyx.Props.SpineTie", "Optyx.Props.VarsIterTie"]   # transcription anchors (harness/source_pins.py)
 THEOREMS = [
     "Optyx.Props.C16.problemVariables_spec",
     "Optyx.Props.C16.generalVariables_spec",
@@ -61,6 +67,8 @@ THEOREMS = [
     "Optyx.Props.VarsIterTie.vstep_seen",
     "Optyx.Props.VarsIterTie.vstep_fresh",
     "Optyx.Props.VarsIterTie.varsIter_frame",
+    "Optyx.Props.StateTie.edits_are_source",
+    "Optyx.Props.StateTie.edit_clears_caches_of_source_equations",
     "Optyx.Props.PinsC16.anchors",
 ]
 ASSUMPTIONS = [
@@ -1326,6 +1334,300 @@ FIXED_SPECS = [
 ]
 
 
+# ---- edit histories: the model is edited AFTER Problem.variables was read.  The objective is replaced (minimize / maximize
+# again) by one that mentions FEWER variables, other ones (same count), the same ones, more, or none; constraints over known
+# and over new variables are added singly and as lists; in every order; `variables` / `n_variables` / `get_bounds` / repr /
+# summary / a solve / the private predicates solve() consults are read between the edits — or nothing is read, so that an
+# edit meets a populated cache as often as an empty one.  The harness keeps its own record of the CURRENT objective and
+# constraints; at every read the problem must list exactly the naturally sorted set of variables of that record (a variable
+# that no longer occurs disappears), with their declared bounds, as keys of Solution.values, and agree with a fresh Problem
+# built on the record.
+
+
+EDIT_READS = ["variables", "n_variables", "get_bounds", "repr", "summary", "solve", "simple_bounds", "none"]
+
+
+def edit_pieces(spec):
+    """term specs over the objects a spec declares: its own objective / constraint terms, and narrow ones (one element, a
+    sub-slice, one row / column / entry, one scalar) so that a later objective or constraint can mention fewer, other or
+    more variables than the earlier ones.  -> (pieces that mention a variable, variable-free pieces)"""
+    ps, seen = [], set()
+
+    def add(t):
+        k = json.dumps(t)
+        if k not in seen:
+            seen.add(k)
+            ps.append(t)
+    for t in (spec["objective"] or []):
+        add(t)
+    for t, _s, _r in spec["constraints"]:
+        if t[0] != "matcons":
+            add(t)
+    free = [["const", 1.0], ["cc"]]
+    for d in spec["decls"]:
+        k, nm = d[0], d[1]
+        if k == "vec":
+            n = d[2]
+            V = ["vec", nm]
+            add(["vsum", V])
+            add(["lc", V])
+            add(["elem", V, 0])
+            add(["elem", V, n - 1])
+            if n >= 2:
+                add(["vsum", ["slice", nm, 0, (n + 1) // 2, None]])
+                add(["lc", ["slice", nm, n // 2, None, None]])
+                add(["dotself", ["slice", nm, None, None, -1]])
+                add(["vsum", ["slice", nm, None, None, 2]])
+                add(["elem", V, n // 2])
+        elif k == "mat":
+            r, c = d[2], d[3]
+            Mx = ["mat", nm]
+            add(["msum", Mx])
+            add(["melem", Mx, 0, 0])
+            add(["melem", Mx, r - 1, c - 1])
+            add(["vsum", ["row", Mx, r - 1]])
+            add(["lc", ["col", Mx, 0]])
+            if r == c:
+                add(["trace", Mx])
+        elif k == "scalar":
+            add(["scalar", nm])
+            add(["mul", 2.0, ["scalar", nm]])
+            add(["sq", ["scalar", nm]])
+        elif k == "param":
+            free.append(["param", nm])
+    return ps, free
+
+
+def gen_edit_history(rng, spec):
+    """a history of edits and reads on the problem of `spec` (built with its own objective and constraints):
+    ["obj", "min" | "max", [terms]] replaces the objective, ["con", "single" | "list", [[term, sense, rhs], ...]] adds
+    constraints, ["read", kind] observes (kind = which reader touches the problem first; "none" = nothing is read)"""
+    pieces, free = edit_pieces(spec)
+    if not pieces:
+        return []
+    cur = list(spec["objective"] or [])
+    steps = []
+    if rng.random() < 0.85:
+        steps.append(["read", rng.choice(EDIT_READS[:-1])])
+    for _ in range(rng.randint(2, 6)):
+        if rng.random() < 0.55:
+            k = rng.random()
+            if k < 0.3 and len(cur) >= 2:
+                terms = rng.sample(cur, rng.randint(1, len(cur) - 1))                       # fewer terms of the same objective
+            elif k < 0.4 and cur:
+                terms = list(cur)                                                           # the same objective again (sense flip)
+            elif k < 0.48:
+                terms = [rng.choice(free)]                                                  # no variable at all
+            elif k < 0.62 and cur:
+                terms = cur + [rng.choice(pieces)]                                          # a superset
+            else:
+                terms = rng.sample(pieces, min(len(pieces), rng.choice([1, 1, 2, 3])))      # other ones / narrower ones
+                if rng.random() < 0.2:
+                    terms.append(rng.choice(free))
+            steps.append(["obj", rng.choice(["min", "max"]), terms])
+            cur = terms
+        else:
+            cons = [[rng.choice(pieces), rng.choice(["<=", ">=", "=="]), rng.choice([1.0, 0, 2.5])] for _ in range(rng.choice([1, 1, 2, 3]))]
+            steps.append(["con", "list" if len(cons) > 1 or rng.random() < 0.3 else "single", cons])
+        if rng.random() < 0.7:
+            steps.append(["read", rng.choice(EDIT_READS)])
+    steps.append(["read", rng.choice(["variables", "n_variables", "get_bounds", "solve"])])
+    return steps
+
+
+def edit_history_cover():
+    """fixed models x (how the replaced objective relates to the old one) x (what is added afterwards / before) x (which
+    reader materialised the list) x (whether something is read between the edits): [(spec, steps)]"""
+    decls = [["vec", "x", 6, 0.0, 2.0], ["vec", "w10", 3, None, 1.0], ["scalar", "t", 0.0, 7.0], ["scalar", "x1", -3.0, 4.0],
+             ["scalar", "x01", None, None], ["scalar", "w2", 0.0, None], ["mat", "A", 2, 2, False, 0.0, 1.0], ["param", "p", 1.5]]
+    X, W, A = ["vec", "x"], ["vec", "w10"], ["mat", "A"]
+    t_, x1, x01, w2 = ["scalar", "t"], ["scalar", "x1"], ["scalar", "x01"], ["scalar", "w2"]
+    # (first objective, first constraints, replacing objective)
+    models = [
+        ([["lc", X], ["mul", 100.0, t_]], [[["vsum", X], "==", 1.0]], [["lc", X]]),                          # a penalty variable leaves
+        ([["vsum", X]], [[["add", ["elem", X, 0], ["elem", X, 1]], "<=", 1.0]], [["vsum", ["slice", "x", 0, 2, None]]]),   # sweep to a sub-vector
+        ([["vsum", X]], [], [["vsum", W]]),                                                                       # another vector
+        ([t_, x1], [], [x01, t_]),                                                                                # same count, other set
+        ([["vsum", X], t_], [[w2, ">=", 0]], [["const", 1.0]]),                                                   # no variable left in it
+        ([t_], [[["msum", A], "<=", 2.5]], [t_, ["msum", A], x1]),                                                # a superset
+        ([["dotself", X], ["sq", x1]], [[["vsum", W], "<=", 1.0]], [["dotself", ["slice", "x", None, None, -2]]]),
+        ([["msum", A], ["vsum", W]], [], [["melem", A, 1, 0], ["elem", W, 2], ["param", "p"]]),                  # single entries of containers
+        ([x1, x01, w2, t_], [[["elem", X, 3], ">=", 0]], [w2]),
+        ([["vsum", X]], [], [["vsum", X]]),                                                                       # the same again
+    ]
+    known_con = ["con", "single", [[["sub", ["elem", X, 0], ["elem", X, 1]], "<=", 0.5]]]
+    new_con = ["con", "list", [[["scalar", "w2"], "<=", 1.0], [["melem", A, 0, 1], ">=", 0]]]
+    out = []
+    for mi, (obj0, cons0, obj1) in enumerate(models):
+        spec = {"kind": "edit-history", "decls": decls, "objective": obj0, "constraints": cons0, "maximize": mi % 3 == 1}
+        for ri, rd in enumerate(EDIT_READS[:-1]):
+            sense = ("min", "max")[(mi + ri) % 2]
+            mid = EDIT_READS[(mi + 2 * ri) % len(EDIT_READS)]
+            last = ["variables", "solve", "get_bounds", "n_variables"][(mi + ri) % 4]
+            out.append((spec, [["read", rd], ["obj", sense, obj1], ["read", last]]))
+            out.append((spec, [["read", rd], ["obj", sense, obj1], ["read", mid], known_con, ["read", last]]))
+            out.append((spec, [["read", rd], known_con, ["read", mid], ["obj", sense, obj1], ["read", last], new_con, ["read", "variables"]]))
+            out.append((spec, [["read", rd], new_con, ["obj", sense, obj1], ["read", mid], ["obj", sense, obj0], ["read", last]]))
+            out.append((spec, [["obj", sense, obj1], ["read", rd], ["obj", "max", obj0], known_con, ["obj", "min", obj1], ["read", last]]))
+    return out
+
+
+def run_edit_history(b, steps, rep=None):
+    """apply the steps to b.problem, keeping an own record of the current objective / constraints; judge every read"""
+    import optyx
+
+    prob = b.problem
+    cur = {"obj": b.objective, "sense": "max" if b.spec.get("maximize") else "min", "cons": list(b.con_objs)}
+    fails, kept = [], []
+
+    def count(k):
+        if rep is not None:
+            rep.histogram[k] = rep.histogram.get(k, 0) + 1
+
+    def judge(i, kind):
+        vs = []
+        if cur["obj"] is not None:
+            brute_vars(cur["obj"], vs)
+        for c in cur["cons"]:
+            brute_vars(c.expr, vs)
+        want = sorted({v.name for v in vs}, key=natural_key)
+        info = {"step": i, "first_read": kind, "edit_history": steps}
+        keys = None
+        with warnings.catch_warnings(), np.errstate(all="ignore"):
+            warnings.simplefilter("ignore")
+            # the reader that touches the edited problem first
+            if kind == "n_variables":
+                _ = prob.n_variables
+            elif kind == "get_bounds":
+                _ = prob.get_bounds()
+            elif kind == "repr":
+                _ = repr(prob)
+            elif kind == "summary":
+                _ = prob.summary()
+            elif kind == "simple_bounds":
+                _ = prob._only_simple_bounds()
+            elif kind == "solve" and cur["obj"] is not None and want:
+                try:
+                    keys = solution_keys(b) or []
+                    count("edit-history:solves")
+                except RecursionError:
+                    keys = None          # compiling a chain several hundred operators deep: C15's subject
+                except Exception as ex:  # noqa: BLE001
+                    keys = None          # what the (stubbed) solve makes of the model is not this property
+                    if rep is not None:
+                        k = "edit-history-solve-raised:" + type(ex).__name__
+                        rep.skipped[k] = rep.skipped.get(k, 0) + 1
+            got_vs = prob.variables
+            names = [v.name for v in got_vs]
+            nv = prob.n_variables
+            bs = prob.get_bounds()
+            again = [v.name for v in prob.variables]
+            # a fresh Problem on the harness's record of the current model
+            fp = optyx.Problem()
+            if cur["obj"] is not None:
+                (fp.maximize if cur["sense"] == "max" else fp.minimize)(cur["obj"])
+            if cur["cons"]:
+                fp.subject_to(list(cur["cons"]))
+            fresh = [v.name for v in fp.variables]
+        kept.append((got_vs, list(got_vs)))
+        kept.append((bs, list(bs)))
+        if names != want:
+            stale = [n for n in names if n not in set(want)]
+            missing = [n for n in want if n not in set(names)]
+            fails.append(dict(info, what="after edits, Problem.variables is not the natural-sorted set of variables of the CURRENT objective and "
+                                         "constraints" + (" (lists variables that no longer occur)" if stale else "")
+                                         + (" (misses variables)" if missing else ""),
+                              got=names[:40], want=want[:40], stale=stale[:10], missing=missing[:10]))
+        if nv != len(want):
+            fails.append(dict(info, what="after edits, n_variables is not the number of variables of the current model", got=nv, want=len(want)))
+        if again != names:
+            fails.append(dict(info, what="after edits, two consecutive reads of Problem.variables differ", got=again[:40], want=names[:40]))
+        wb = [[None if x is None else float(x) for x in b.decl_bounds.get(nm, ("?", "?"))] for nm in want]
+        gb = [[None if x is None else float(x) for x in p] for p in bs]
+        if gb != wb:
+            fails.append(dict(info, what="after edits, get_bounds is not the declared bounds of the current model's variables",
+                              got=str(gb)[:200], want=str(wb)[:200]))
+        if keys is not None and keys != want:
+            fails.append(dict(info, what="after edits, the keys of Solution.values are not the current model's variables", got=keys[:40], want=want[:40]))
+        if fresh != names:
+            fails.append(dict(info, what="after edits, Problem.variables differs from a fresh Problem with the same objective and constraints",
+                              got=names[:40], want=fresh[:40]))
+
+    for i, st in enumerate(steps):
+        if st[0] == "obj":
+            e = b.term(st[2][0])
+            for t in st[2][1:]:
+                e = e + b.term(t)
+            (prob.maximize if st[1] == "max" else prob.minimize)(e)
+            cur["obj"], cur["sense"] = e, st[1]
+            count("edit-history:objective-replaced")
+        elif st[0] == "con":
+            cs = []
+            for t, sense, rhs in st[2]:
+                e = b.term(t)
+                cs.append((e <= rhs) if sense == "<=" else (e >= rhs) if sense == ">=" else e.eq(rhs))
+            if st[1] == "single":
+                for c in cs:
+                    prob.subject_to(c)
+            else:
+                prob.subject_to(list(cs))
+            cur["cons"].extend(cs)
+            count("edit-history:constraints-added")
+        elif st[1] != "none":
+            count("edit-history:read-" + st[1])
+            judge(i, st[1])
+            if fails:
+                break
+    for obj, snap in kept:
+        if len(obj) != len(snap) or any(a is not b_ and a != b_ for a, b_ in zip(obj, snap)):
+            fails.append({"what": "a variables / bounds list returned before an edit was changed by later edits", "edit_history": steps})
+            break
+    return fails[:3]
+
+
+def edit_history_cases(rng, n_random):
+    """[(spec, construction order, steps)]: the fixed cover and `n_random` generated specs with a generated history each"""
+    out = [(spec, 0, steps) for spec, steps in edit_history_cover()]
+    kinds = ["shortcut", "shortcut", "nearmiss", "general", "general", "general", "collision", "names", "names", "matview"]
+    for _ in range(n_random):
+        spec = gen_spec(rng, force=rng.choice(kinds))
+        if spec["objective"] is None and rng.random() < 0.5:
+            continue
+        out.append((spec, rng.choice([0, 1, 2, 3]), gen_edit_history(rng, spec)))
+    return out
+
+
+def edit_history_family(rng, n_random, rep=None, first_only=False):
+    fails = []
+    for spec, o, steps in edit_history_cases(rng, n_random):
+        if not steps:
+            continue
+        try:
+            b = Built(spec, o)
+        except Exception:  # noqa: BLE001
+            if rep is not None:
+                rep.skipped["spec-build-error"] = rep.skipped.get("spec-build-error", 0) + 1
+            continue
+        if rep is not None:
+            rep.histogram["history:edit-sequences"] = rep.histogram.get("history:edit-sequences", 0) + 1
+        try:
+            fs = run_edit_history(b, steps, rep)
+        except (RecursionError, Unsupported) as ex:
+            # repr / traversal of a chain several hundred operators deep (C15's subject), or a node the harness does not know
+            if rep is not None:
+                k = "edit-history:" + type(ex).__name__
+                rep.skipped[k] = rep.skipped.get(k, 0) + 1
+            continue
+        except Exception as ex:  # noqa: BLE001
+            fs = [{"what": "an edit / read of the history raised", "error": f"{type(ex).__name__}: {ex}"[:200], "edit_history": steps}]
+        for f in fs[:1]:
+            f.update({"spec": spec, "order": o})
+            fails.append(f)
+        if fails and first_only:
+            break
+    return fails
+
+
 # ------------------------------------------------------------------ worker (fresh interpreter, given PYTHONHASHSEED)
 
 
@@ -1383,7 +1685,10 @@ def run(ctx) -> core.Report:
                            "mid-name digits, prefixes, brackets in the BASE names of scalars, vectors and matrices that all occur in one "
                            "problem) + matrix-view family (every 2-D slice form of symmetric and general matrices, of their transposes and "
                            "transposed afterwards, through sum / Frobenius norm / element-wise ops / trace / diag / rows / columns / matrix "
-                           "constraints) + histories (edit after read; every read-only helper of Problem, enumerated from the class, and the Solution "
+                           "constraints) + edit histories (objective replaced by one over fewer / other / the same / more / no variables, constraints over known and new "
+                           "variables added singly and as lists, in every order, with variables / n_variables / get_bounds / repr / summary / solve / private predicates "
+                           "or nothing read between the edits; judged at every read against the harness's own record of the current model and a fresh Problem) "
+                           "+ histories (edit after read; every read-only helper of Problem, enumerated from the class, and the Solution "
                            "accessors interleaved between build / solve / edit, lists returned earlier re-checked) + depth x operand position (chains "
                            "399 .. 700 deep with one variable only in an exponent / right operand / under a function / inside a vector or "
                            "matrix node / as right child / deepest leaf; both variable walkers on every tree) + seeded random problem specs; each built in several construction orders in-process and "
@@ -1490,6 +1795,13 @@ def run(ctx) -> core.Report:
                     lines.append(f"svs {S.expr(e)}")
                     metas.append(("svs", b, None if src is None else (src.name, ids.of(src)), e))
 
+    # --- edit histories (objective replaced by one over fewer / other variables, constraints over known / new variables, reads between)
+    eh = edit_history_family(rng, 4000 if thorough else 450, rep)
+    if eh:
+        rep.histogram["history:edit-sequences-failed"] = len(eh)
+        rep.oracle_failures.extend(sorted(eh, key=lambda f: len(json.dumps(f["edit_history"])) + len(json.dumps(f["spec"])))[:12])   # smallest first
+    n_edit = rep.histogram.get("history:edit-sequences", 0)
+
     # sort keys
     names = sorted(set(SCALAR_NAMES + ["x[0]", "x[10]", "x[2]", "A[1,10]", "A[1,9]", "A[10,0]", "", "7", "07", "a", "a0", "a00", "a0b",
                                        "a0b0", "ab", "a1", "a1a", "a10", "a9", "_diag_x[0:2][1,0]", "S.T[0,1]", "diag(A)[1]"]))
@@ -1504,7 +1816,7 @@ def run(ctx) -> core.Report:
         metas.append(("keylt", a, b, None))
 
     outs = run_lean_unit(lines)
-    rep.evaluations = len(lines)
+    rep.evaluations = len(lines) + n_edit
     paths = {}
     for (what, a, b, c), model in zip(metas, outs):
         rep.histogram["model:" + what] = rep.histogram.get("model:" + what, 0) + 1
@@ -1585,6 +1897,10 @@ def real_route(b):
 
 def search(ctx, rep):
     rng = core.Rng(ctx["seed"] + 32452843)
+    # edit histories first: a changed editing method (minimize / maximize / subject_to / _invalidate_caches) shows only there
+    fs = edit_history_family(rng, 3000, None, first_only=True)
+    if fs:
+        return fs[0]
     # first the specs on which model and implementation disagreed (more construction orders), then fresh ones
     first, seen = [], set()
     for sp in getattr(rep, "mismatch_specs", []):
@@ -1638,6 +1954,11 @@ def replay(payload) -> bool:
         for sd in range(6):
             fs += readonly_history_check(Built(spec, o), want, wb_, core.Rng(sd))
         print(fs[:3])
+        return not fs
+    if "edit_history" in f:
+        fs = run_edit_history(b, f["edit_history"])
+        for x in fs:
+            print({k: v for k, v in x.items() if k != "edit_history"})
         return not fs
     if f.get("history"):
         fs = history_check(b, want)
